@@ -1,5 +1,10 @@
 // Driver for C12: calls framework_helper.SortOrderedComponents directly and observes the
 // invocation order of processors, runners and loaders during real App.Run starts.
+//
+// kind "loaderhist" drives ONE Configure through steps (set / add of some of the case's loaders, init = Initialize;
+// start new = configure.NewConfigure()+viper binder, default = configure.Default(); with via=app the LAST init is the
+// one App.Run performs after app.SetConfigure(cfg)): one observed sequence per Initialize, together with the
+// participants the Configure held at that moment (SeqFacts).
 package main
 
 import (
@@ -7,6 +12,7 @@ import (
 
 	"github.com/go-kid/ioc/app"
 	"github.com/go-kid/ioc/configure"
+	"github.com/go-kid/ioc/configure/binder"
 	"github.com/go-kid/ioc/definition"
 	"github.com/go-kid/ioc/syslog"
 	"github.com/go-kid/ioc/util/framework_helper"
@@ -19,20 +25,29 @@ type Part struct {
 	Ord int64  `json:"ord"`
 }
 
+type Step struct {
+	Op  string `json:"op"` // set | add | init
+	IDs []int  `json:"ids"`
+}
+
 type Case struct {
 	ID    int    `json:"id"`
-	Kind  string `json:"kind"` // direct | runner | processor | loader
+	Kind  string `json:"kind"` // direct | runner | processor | loader | loaderhist
 	Parts []Part `json:"parts"`
+	Steps []Step `json:"steps"`
+	Start string `json:"start"` // new | default
+	Via   string `json:"via"`   // direct | app
 }
 
 type Out struct {
-	ID      int      `json:"id"`
-	Kind    string   `json:"kind"`
-	Facts   []Part   `json:"facts"` // class / Order as read back from the Go values
-	Seqs    [][]int  `json:"seqs"`  // one or more observed sequences of ids
-	SeqName []string `json:"seqname"`
-	Err     string   `json:"err"`
-	Panic   string   `json:"panic"`
+	ID       int      `json:"id"`
+	Kind     string   `json:"kind"`
+	Facts    []Part   `json:"facts"` // class / Order as read back from the Go values
+	Seqs     [][]int  `json:"seqs"`  // one or more observed sequences of ids
+	SeqName  []string `json:"seqname"`
+	SeqFacts [][]Part `json:"seqfacts,omitempty"` // loaderhist: the participants configured at each Initialize
+	Err      string   `json:"err"`
+	Panic    string   `json:"panic"`
 }
 
 // ---- participants --------------------------------------------------------------------------
@@ -190,7 +205,11 @@ func build(kind string, parts []Part, log, after *[]int) []any {
 func runCase(c Case) (out Out) {
 	out = Out{ID: c.ID, Kind: c.Kind}
 	var log, after []int
-	vals := build(c.Kind, c.Parts, &log, &after)
+	kind := c.Kind
+	if kind == "loaderhist" {
+		kind = "loader"
+	}
+	vals := build(kind, c.Parts, &log, &after)
 	for _, v := range vals {
 		out.Facts = append(out.Facts, classify(v))
 	}
@@ -232,6 +251,60 @@ func runCase(c Case) (out Out) {
 			}
 			out.Seqs = [][]int{append([]int{}, log...)}
 			out.SeqName = []string{"load"}
+		case "loaderhist":
+			byID := map[int]any{}
+			for _, v := range vals {
+				byID[v.(ider).PartID()] = v
+			}
+			sel := func(ids []int) []configure.Loader {
+				var ls []configure.Loader
+				for _, i := range ids {
+					ls = append(ls, byID[i].(configure.Loader))
+				}
+				return ls
+			}
+			var cfg configure.Configure
+			if c.Start == "default" {
+				cfg = configure.Default() // holds ArgsLoader(os.Args): unordered, not one of ours
+			} else {
+				cfg = configure.NewConfigure()
+				cfg.SetBinder(binder.NewViperBinder("yaml"))
+			}
+			var cur []int
+			lastInit := -1
+			for i, st := range c.Steps {
+				if st.Op == "init" {
+					lastInit = i
+				}
+			}
+			for i, st := range c.Steps {
+				switch st.Op {
+				case "set":
+					cfg.SetLoaders(sel(st.IDs)...)
+					cur = append([]int{}, st.IDs...)
+				case "add":
+					cfg.AddLoaders(sel(st.IDs)...)
+					cur = append(cur, st.IDs...)
+				case "init":
+					log = nil
+					var err error
+					if c.Via == "app" && i == lastInit {
+						err = app.NewApp().Run(app.LogLevel(syslog.LvFatal), app.SetConfigure(cfg))
+					} else {
+						err = cfg.Initialize()
+					}
+					if err != nil {
+						out.Err = err.Error()
+					}
+					facts := []Part{}
+					for _, id := range cur {
+						facts = append(facts, classify(byID[id]))
+					}
+					out.Seqs = append(out.Seqs, append([]int{}, log...))
+					out.SeqName = append(out.SeqName, fmt.Sprintf("init%d", len(out.Seqs)))
+					out.SeqFacts = append(out.SeqFacts, facts)
+				}
+			}
 		}
 	})
 	return out
